@@ -117,6 +117,23 @@ def check_case(W, datamap, s):
                     elif enc == "none" and any("sid" in g and g["sid"] is not None for g in got if not attrs or "sid" not in attrs):
                         sig += "/sid-not-omitted"
                     bad(sig, [cfg, attrs, enc, got[:3]], exp[:3])
+                    continue
+                # the same request in its other forms: arguments passed positionally, get_one, get_data per found Sid
+                try:
+                    pos = json.loads(json.dumps(list(GetFromPaths(cfg).get(s, attrs, enc_fn(enc))), default=str))
+                    one = json.loads(json.dumps(GetFromPaths(cfg).get_one(s, attrs, enc_fn(enc)), default=str))
+                    per = [json.loads(json.dumps(GetFromPaths(cfg).get_data(st, attributes=attrs, sid_encode=enc_fn(enc)), default=str)) for u, st in found[:2]]
+                except Exception as e:  # noqa
+                    bad(f"get-other-form-raises/{type(e).__name__}", [cfg, attrs, enc, repr(e)[:100]], "records")
+                    continue
+                if pos != exp:
+                    bad("positional-get-differs-from-keyword-get", [cfg, attrs, enc, pos[:3]], exp[:3])
+                if one != (exp[0] if exp else {}):
+                    bad("get_one-is-not-first-record/with-attributes-or-encoder", [cfg, attrs, enc, one], exp[:1])
+                # get_data answers for one Sid given by its string: the type is the natural one, so compare only when that is the found type
+                for (u, st), g in zip(found[:2], per):
+                    if W.ref.natural(st)[0] == u.split(":")[0] and g != record(W, datamap, cfg, u, st, attrs, enc):
+                        bad("get_data-is-not-the-record-of-that-sid/with-attributes-or-encoder", [cfg, st, attrs, enc, g], record(W, datamap, cfg, u, st, attrs, enc))
         # get_one / get_data / get_attr
         try:
             g1 = GetFromPaths(cfg).get_one(s)
